@@ -86,7 +86,7 @@ CONSTS = [Fr(1), Fr(2), Fr(3), Fr(1, 2), Fr(3, 2), Fr(1, 4), Fr(-1), Fr(-2), Fr(
 #   ["join", [a, b, ..]]
 
 ADVERB_DYADS = {"eachR": ":/", "eachL": ":\\", "each2": "'", "overN": "/", "scanN": "\\"}
-ADV_OPS = {"+": "+", "-": "-", "*": "*", "%": "%", "^": "^", "L-": "{x-y}", "L%": "{x%y}"}
+ADV_OPS = {"+": "+", "-": "-", "*": "*", "%": "%", "^": "^", "L-": "{x-y}", "L%": "{x%y}", "&": "&", "|": "|"}
 
 
 def fr(s):
@@ -148,6 +148,8 @@ def render(n):
         return f"({render(n[2])}{ADV_OPS[n[1]]}{ADVERB_DYADS[k]}{render(n[3])})"
     if k == "scan":
         return f"({ADV_OPS[n[1]]}\\{render(n[2])})"
+    if k == "over":
+        return f"({ADV_OPS[n[1]]}/{render(n[2])})"
     if k == "sum":
         return f"(+/{render(n[1])})"
     if k == "prod":
@@ -263,6 +265,9 @@ def gen_s(rng, env, depth, allow_trans, mat=None):
                 gen_s(rng, env, rng.choice([0, 0, depth - 1]), allow_trans)]
     if r < 0.72:
         n = rng.choice(vec_lens)
+        if rng.random() < 0.3:
+            # Over with the other verbs: -/ %/ &/ |/ (TorchUfunc.reduce paths), 3-5 members when possible
+            return ["over", rng.choice(["-", "%", "-", "%", "&", "|"]), gen_v(rng, env, n, depth - 1, allow_trans)]
         return [rng.choice(["sum", "sum", "prod"]), gen_v(rng, env, n, depth - 1, allow_trans)]
     if r < 0.78:
         fns = RAT_FNS + (TRANS_FNS if allow_trans else ())
@@ -325,7 +330,7 @@ def gen_v(rng, env, n, depth, allow_trans):
         if kind == "each2":
             return ["each2", op, gen_v(rng, env, n, d, allow_trans), gen_v(rng, env, n, d, allow_trans)]
         if kind == "scan" or n < 2:
-            return ["scan", rng.choice(["+", "*", "-", "%"]), gen_v(rng, env, n, d, allow_trans)]
+            return ["scan", rng.choice(["+", "*", "-", "%", "&", "|"]), gen_v(rng, env, n, d, allow_trans)]
         return ["scanN", rng.choice(["+", "*", "-", "%"]), gen_s(rng, env, 0, allow_trans),
                 gen_v(rng, env, n - 1, d, allow_trans)]
     if r < 0.78:
@@ -544,6 +549,13 @@ def pd_eval(n, env, seed):
         return _map(pd_eval(n[1], env, seed), lambda a: dn_pow(a, n[2]))
     if k == "gpow":
         return _bc(pd_eval(n[1], env, seed), pd_eval(n[2], env, seed), dn_gpow)
+    if k == "over":
+        vs = pd_eval(n[2], env, seed)
+        f = {"+": dn_add, "-": lambda u, v: dn_add(u, v, -1), "*": dn_mul, "%": dn_div}[n[1]]
+        acc = vs[0]
+        for x in vs[1:]:
+            acc = f(acc, x)
+        return acc
     if k in ADVERB_DYADS or k == "scan":
         # the manual's definitions: a f:/b = f(b1;a),..,f(bN;a) (an atom b: f(b;a));  a f:\b = f(a;b1),..;
         # a f'b = f(a1;b1),..;  a f/b = f(..f(f(a;b1);b2)..;bN);  a f\b = a, f(a;b1), f(f(a;b1);b2), ..
@@ -596,10 +608,45 @@ def pd_eval(n, env, seed):
     raise ValueError(k)
 
 
+def resolve_minmax(n, env):
+    """`&` (min) and `|` (max) folds / scans are piecewise selections: away from ties (gap >= 1/4, else
+    the point is not in the smooth domain) `&/v` IS the member that is smallest at the point.  Rewrites
+    over / scan / over-neutral with & | into index / join nodes; everything else is copied."""
+    if not isinstance(n, list):
+        return n
+    if n and n[0] in ("over", "scan", "overN", "scanN") and n[1] in ("&", "|"):
+        pick_min = n[1] == "&"
+        if n[0] in ("over", "scan"):
+            start, vec = None, resolve_minmax(n[2], env)
+        else:
+            start, vec = resolve_minmax(n[2], env), resolve_minmax(n[3], env)
+        vals = pd_eval(vec, env, 0)
+        cands = ([(start, pd_eval(start, env, 0).v)] if start is not None else []) + \
+            [(["idx", vec, i], d.v) for i, d in enumerate(vals)]
+        best, out = None, []
+        for node, v in cands:
+            if best is None:
+                best = (node, v)
+            else:
+                if abs(v - best[1]) < Fr(1, 4):
+                    raise NotSmooth("min / max at (or near) a tie")
+                if (v < best[1]) == pick_min:
+                    best = (node, v)
+            out.append(best[0])
+        return best[0] if n[0] in ("over", "overN") else ["join", out]
+    if n and n[0] in ("const", "vconst", "par"):
+        return n
+    if n and n[0] == "join":
+        return ["join", [resolve_minmax(a, env) for a in n[1]]]
+    return [resolve_minmax(a, env) if isinstance(a, list) else a for a in n]
+
+
 class Oracle:
     """value(s), Jacobian (rows = outputs, columns = flat inputs) and error bounds"""
 
     def __init__(self, tree, env):
+        tree = resolve_minmax(tree, env)
+        self.tree = tree                # what the Lean driver is given (min / max resolved at the point)
         cols = []
         for s in range(env.n):
             r = pd_eval(tree, env, s)
@@ -642,6 +689,12 @@ def lower(n, env):
         if kb == "V":
             return "V", [(op, a, y) for y in b]
         return "S", (op, a, b)
+    if k == "over":
+        _, vs = lower(n[2], env)
+        acc = vs[0]
+        for x in vs[1:]:
+            acc = ({"+": "+", "-": "-", "*": "*", "%": "/"}[n[1]], acc, x)
+        return "S", acc
     if k in ADVERB_DYADS or k == "scan":
         def ap(u, v, o=n[1]):
             if o == "^":
@@ -1117,7 +1170,7 @@ def gen_point(rng, kind):
     if kind == "M":
         r, c = rng.choice([(2, 2), (2, 3), (3, 2)])
         return [[rng.choice(GRID) for _ in range(c)] for _ in range(r)]
-    return [rng.choice(GRID) for _ in range(rng.choice([1, 2, 2, 3, 3, 4]))]
+    return [rng.choice(GRID) for _ in range(rng.choice([1, 2, 3, 3, 4, 4, 5]))]
 
 
 def gen_case(rng, quick):
@@ -1160,8 +1213,8 @@ def gen_case(rng, quick):
             tree = gen_join(rng, env, depth, allow_trans) if env.kind("x") == "V" else \
                 ["join", [gen_s(rng, env, depth, allow_trans) for _ in range(rng.choice([1, 2, 3]))]]
         else:
-            names = rng.choice([["w", "b"], ["w", "b", "c"], ["a", "b"], ["w", "c"]] +
-                               ([["M", "b"], ["M", "w"]] if fam == "multi" else []))
+            names = rng.choice([["w", "b"], ["w", "b", "c"], ["a", "b"], ["w", "c"], ["w"], ["b"]] +
+                               ([["M", "b"], ["M", "w"], ["M"]] if fam == "multi" else []))
             params = {}
             for nm in names:
                 params[nm] = gen_point(rng, "S" if nm in ("a", "b") else ("M" if nm == "M" else "V"))
@@ -1359,24 +1412,24 @@ def _run_case(ctx, model, real, fam, tree, params, forms=None, backends=None, qu
     trunc_ok = np.ones((m, n), dtype=bool)
     if model is not None:
         if orc.exact:
-            mv, mj = model.jac(otree, oenv)
+            mv, mj = model.jac(orc.tree, oenv)
             if mv != orc.val or mj != orc.jac:
                 ctx.mismatch("Klong.C06.gradient (dual numbers) vs independent forward-mode evaluation",
                              base, dict(val=[frs(x) for x in mv], jac=[[frs(x) for x in r] for r in mj]),
                              dict(val=[frs(x) for x in orc.val], jac=[[frs(x) for x in r] for r in orc.jac]))
                 return
             if orc.scalar and ctx.rng.random() < 0.25:
-                gs = model.gradsym(otree, oenv)
+                gs = model.gradsym(orc.tree, oenv)
                 ctx.bump("tie:symbolic-D-evaluated")
                 if gs != orc.jac[0]:
                     ctx.mismatch("Klong.C06.D (symbolic derivative) vs dual numbers", base,
                                  [frs(x) for x in gs], [frs(x) for x in orc.jac[0]])
                     return
             # the exact central difference of the model's loop: quantifies truncation
-            cd_rows, _ = model.numjac(otree, oenv)
+            cd_rows, _ = model.numjac(orc.tree, oenv)
             ctx.bump("tie:oracle-exact")
         else:
-            mv, mj = model.jacf(otree, oenv)
+            mv, mj = model.jacf(orc.tree, oenv)
             a = np.array(mj, dtype=float).reshape(m, n)
             b = np.array([[float(x) for x in r] for r in orc.jac], dtype=float).reshape(m, n)
             de = np.array(orc.derr, dtype=float).reshape(m, n)
@@ -1439,6 +1492,11 @@ def _run_case(ctx, model, real, fam, tree, params, forms=None, backends=None, qu
                 okv = False
         if okv:
             usable.append(backend)
+        elif status == "ok":
+            # the function returns another value on this backend: the gradient forms are still judged
+            # (a fold / scan kernel that is wrong shows in both), the value itself is C01 / C08
+            usable.append(backend)
+            ctx.bump(f"function-value-differs-but-evaluates({backend})")
         else:
             ctx.bump(f"skipped:function-value-differs({backend})")
             ctx.extra.setdefault("function_value_differs", [])
@@ -2059,6 +2117,21 @@ FIXED = [
     ("jac", ["join", [["each2", "+", ["par", "x"], ["const", "1/1"]], ["gpow", ["par", "x"], ["par", "x"]]]], {"x": Fr(2)}),
     ("jac", ["join", [["const", "1/4"], ["call", "sqrt", ["idx", ["pow", ["par", "x"], 0], 0]]]],
      {"x": [Fr(1, 2), Fr(3), Fr(3)]}),
+    # Over / Scan with every arithmetic verb over 3-5 members
+    ("vector", ["over", "-", ["pow", ["par", "x"], 2]], {"x": [Fr(3), Fr(1), Fr(2)]}),
+    ("vector", ["over", "%", ["par", "x"]], {"x": [Fr(3), Fr(1, 2), Fr(2), Fr(-1)]}),
+    ("vector", ["over", "&", ["mul", ["par", "x"], ["par", "x"]]], {"x": [Fr(3), Fr(1), Fr(2), Fr(-5, 2), Fr(3, 2)]}),
+    ("vector", ["over", "|", ["par", "x"]], {"x": [Fr(1), Fr(3), Fr(2)]}),
+    ("vector", ["sum", ["scan", "-", ["par", "x"]]], {"x": [Fr(3), Fr(1), Fr(2), Fr(1, 2)]}),
+    ("vector", ["sum", ["scan", "%", ["par", "x"]]], {"x": [Fr(3), Fr(1), Fr(2)]}),
+    ("vector", ["sum", ["scan", "+", ["pow", ["par", "x"], 2]]], {"x": [Fr(3), Fr(1), Fr(2), Fr(-1)]}),
+    ("vector", ["sum", ["scan", "|", ["par", "x"]]], {"x": [Fr(1), Fr(3), Fr(2)]}),
+    ("vector", ["overN", "-", ["const", "10/1"], ["pow", ["par", "x"], 2]], {"x": [Fr(3), Fr(1), Fr(2)]}),
+    ("jac", ["join", [["over", "-", ["par", "x"]], ["over", "%", ["par", "x"]]]], {"x": [Fr(3), Fr(1), Fr(2)]}),
+    # a list of exactly one named parameter
+    ("multi", ["sum", ["mul", ["par", "w"], ["par", "w"]]], {"w": [Fr(1), Fr(2), Fr(3)]}),
+    ("multi", ["pow", ["par", "b"], 3], {"b": Fr(2)}),
+    ("multi-jac", ["mul", ["par", "w"], ["par", "w"]], {"w": [Fr(1), Fr(2)]}),
     # projections as the function operand, with and without unrelated globals named like the slots
     ("proj", ["mul", ["par", "x"], ["fixed", "y", ["const", "3/1"]]], {"x": Fr(2)},
      dict(proj=dict(free="x", arity=2), globals=True)),
